@@ -28,11 +28,14 @@ def sigNet : Net := ⟨"signet", 0x6f, 0xc4, 0xef, [116, 98], [0x04, 0x35, 0x83,
 def regNet : Net := ⟨"regtest", 0x6f, 0xc4, 0xef, [98, 99, 114, 116], [0x04, 0x35, 0x83, 0x94], [0x04, 0x35, 0x87, 0xcf]⟩
 def simNet : Net := ⟨"simnet", 0x3f, 0x7b, 0x64, [115, 98], [0x04, 0x20, 0xb9, 0x00], [0x04, 0x20, 0xbd, 0x3a]⟩
 
-/-- every parameter set btcd ships, in the order used on the protocol line -/
-def nets : List Net := [mainNet, testNet3, testNet4, sigNet, regNet, simNet]
+/-- a network the harness registers at run time through `chaincfg.Register` ("every registered network") -/
+def customNet : Net := ⟨"verifnet", 0x30, 0x32, 0xb0, [118, 110], [0x01, 0x9d, 0x9c, 0xfe], [0x01, 0x9d, 0xa4, 0x62]⟩
 
-/-- networks registered by `chaincfg`'s `init` (signet is not registered) -/
-def registered : List Net := [mainNet, testNet3, testNet4, regNet, simNet]
+/-- the harness's custom network, then every parameter set btcd ships, in the order used on the protocol line -/
+def nets : List Net := [customNet, mainNet, testNet3, testNet4, sigNet, regNet, simNet]
+
+/-- registered networks: `chaincfg`'s `init` (signet is not registered) plus the harness's custom network -/
+def registered : List Net := [customNet, mainNet, testNet3, testNet4, regNet, simNet]
 
 def registeredHrps : List (List UInt8) := registered.map (·.hrp)
 
